@@ -115,12 +115,18 @@ mutual
   /-- all items at every depth are AFFECTED (`rewrite_diff`'s "nothing changed" test) -/
   def allAffected : List DItem → Bool
     | [] => true
-    | .mk o _ ch _ :: rest => o == .affected && allAffected ch && allAffected rest
+    | i :: rest => allAffectedItem i && allAffected rest
+  def allAffectedItem : DItem → Bool
+    | .mk o _ ch _ => o == .affected && allAffected ch
+end
+
+mutual
   /-- AFFECTED → MOVED at every depth -/
   def affectedToMoved : List DItem → List DItem
     | [] => []
-    | .mk o r ch m :: rest =>
-      .mk (if o == .affected then .moved else o) r (affectedToMoved ch) m :: affectedToMoved rest
+    | i :: rest => affectedToMovedItem i :: affectedToMoved rest
+  def affectedToMovedItem : DItem → DItem
+    | .mk o r ch m => .mk (if o == .affected then .moved else o) r (affectedToMoved ch) m
 end
 
 /-- the recursive call `call_diff_logic(subtree, old[row], new[row], pops + (op,))`, abstracted -/
@@ -205,19 +211,21 @@ mutual
   /-- `mark_unchanged` (patching.py:298-306) -/
   def markUnchanged : List DItem → List DItem
     | [] => []
-    | .mk o r ch m :: rest =>
+    | i :: rest => markItem i :: markUnchanged rest
+  def markItem : DItem → DItem
+    | .mk o r ch m =>
       if o == .affected then
-        let ch' := markUnchanged ch
-        .mk (if ch'.all (·.op == .unchanged) then .unchanged else .affected) r ch' m :: markUnchanged rest
-      else .mk o r ch m :: markUnchanged rest
+        .mk (if (markUnchanged ch).all (·.op == .unchanged) then .unchanged else .affected) r (markUnchanged ch) m
+      else .mk o r ch m
 end
 
 mutual
   /-- `strip_unchanged` (patching.py:309-316) -/
   def stripUnchanged : List DItem → List DItem
     | [] => []
-    | .mk o r ch m :: rest =>
-      if o == .unchanged then stripUnchanged rest else .mk o r (stripUnchanged ch) m :: stripUnchanged rest
+    | i :: rest => if i.op == .unchanged then stripUnchanged rest else stripItem i :: stripUnchanged rest
+  def stripItem : DItem → DItem
+    | .mk o r ch m => .mk o r (stripUnchanged ch) m
 end
 
 mutual
